@@ -2,6 +2,7 @@
 //   seq <ops>            single-thread schedule replay; prints one line: an event per op with the canonical
 //                        id of the raw buffer, the free list as seen by walking the link words from
 //                        Crew::Data::freeRaws, the pool's allocate count, live item count
+//   seqt <ops>           the same on a table whose rows are ONE byte long (the buffer must still hold the link word)
 //   stress k rounds seed multi-threaded: k disposer threads destroy rows moved to them while the owner
 //                        creates / adds / extracts / removes (built with -fsanitize=thread / address in the thorough tier)
 // ops:  n (NewRow)  a<k> (Add detached #k)  x<i> (Extract table row i)  d<k> (destroy detached #k)
@@ -62,6 +63,21 @@ static ColumnList makeColumns(MMStats* st)
 	return cl;
 }
 
+static const DataColumn<uint8_t> colB("b");
+
+struct Big      // three columns, non-trivial items on the heap
+{
+	static ColumnList columns(MMStats* st) { return makeColumns(st); }
+	static void fill(Row& row, size_t n) { row[colId] = n; row[colS] = "row " + std::to_string(n) + " with a long tail to force a heap allocation"; }
+	static void rewrite(Row& row, size_t k) { row[colId] = 0xDEADBEEFu + k; row[colS] = "rewritten"; }
+};
+struct Tiny     // one byte per row: the raw buffer must still be able to hold the link word (pvCreateRawMemPool)
+{
+	static ColumnList columns(MMStats* st) { ColumnList cl{ CountMM(st) }; cl.Add(colB); return cl; }
+	static void fill(Row& row, size_t n) { row[colB] = uint8_t(n); }
+	static void rewrite(Row& row, size_t k) { row[colB] = uint8_t(0xA5 + k); }
+};
+
 struct Ids
 {
 	std::map<const void*, int> ids;
@@ -82,12 +98,13 @@ static std::string freeList(Table& t, Ids& ids, size_t bound)
 	return s;
 }
 
+template<typename Cfg>
 static void runSeq(std::istringstream& is)
 {
 	MMStats st; std::ostringstream out; bool first = true;
 	long live0 = Tracked::live.load();
 	{
-		Table table(makeColumns(&st));
+		Table table(Cfg::columns(&st));
 		Ids ids; std::vector<Row> det; size_t created = 0; std::string op;
 		auto emit = [&] (const std::string& ev) {
 			if (!first) out << ' '; first = false;
@@ -101,7 +118,7 @@ static void runSeq(std::istringstream& is)
 			{
 				Row row = table.NewRow(); ++created;
 				int id = ids.of(row.GetRaw());
-				row[colId] = created; row[colS] = "row " + std::to_string(created) + " with a long tail to force a heap allocation";
+				Cfg::fill(row, created);
 				det.push_back(std::move(row));
 				emit("N" + std::to_string(id));
 			}
@@ -145,7 +162,7 @@ static void runSeq(std::istringstream& is)
 			else if (c == 's' && !det.empty())
 			{
 				k %= det.size(); int id = ids.of(det[k].GetRaw());
-				det[k][colId] = 0xDEADBEEFu + k; det[k][colS] = "rewritten";
+				Cfg::rewrite(det[k], k);
 				emit("S" + std::to_string(id));
 			}
 			else
@@ -242,7 +259,8 @@ int main()
 	while (std::getline(std::cin, line))
 	{
 		std::istringstream is(line); std::string cmd; is >> cmd;
-		if (cmd == "seq") runSeq(is);
+		if (cmd == "seq") runSeq<Big>(is);
+		else if (cmd == "seqt") runSeq<Tiny>(is);
 		else if (cmd == "stress") runStress(is);
 		else puts("?");
 		fflush(stdout);
